@@ -1,9 +1,12 @@
 """C17 - the Auto/AutoLength machine: operation histories on described fields vs. a reference model.
 
-Model per live packet and described field:  explicit: value | None.
-    read  == explicit                 if explicit is not None
-          == compute(tracked value)   otherwise           (tracked value read from the object)
-    pack  == encode(reads, tracked)   or PacketError iff some read does not fit its field
+A live packet has one or more *hosts* (the packets that own described fields: the packet itself, a
+nested packet, or the element packets of a repeated Ref).  Model per host and described field:
+    explicit: value | None
+    read  == explicit                            if explicit is not None
+          == compute(tracked values, reads of the described fields it depends on)   otherwise
+    pack  == encode(reads, tracked)  or PacketError iff some read does not fit its field
+Tracked values are always re-read from the object (their correctness is not C17's business).
 """
 import os
 import sys
@@ -13,52 +16,54 @@ from .engines import Engine, register
 from .runner import Outcome, import_fresh_bisturi
 from . import project
 
-# ---------------------------------------------------------------------------------------
-# declarations (source text; OPTIONS is replaced per run)
-# ---------------------------------------------------------------------------------------
+
+class D:
+    """a described field: attribute name, kind ('int' | 'bytes' | 'bits'), width, compute(t, r)"""
+
+    def __init__(self, attr, kind, width, compute):
+        self.attr, self.kind, self.width, self.compute = attr, kind, width, compute
+
+    def fits(self, v):
+        if self.kind == "bytes":
+            return isinstance(v, bytes) and len(v) == self.width
+        if not isinstance(v, int) or isinstance(v, bool):
+            return False
+        if self.kind == "bits":
+            return 0 <= v < (1 << self.width)
+        return 0 <= v < 256 ** self.width
 
 
-def _fits(v, width):
-    return isinstance(v, int) and not isinstance(v, bool) and 0 <= v < 256 ** width
+def _i(n, w=1):
+    return n.to_bytes(w, "big")
 
 
-class Described:
-    def __init__(self, attr, tracked, width, compute, path=()):
-        self.attr, self.tracked, self.width, self.compute, self.path = attr, tracked, width, compute, path
+def _host_self(p):
+    return [p]
 
 
 DECLS = [
-    dict(
-        name="alen",
-        src="""
+    dict(name="alen", root="P", nhosts=1, hosts=_host_self,
+         src="""
 class P(Packet):
     __bisturi__ = OPTIONS
     length = Int(1).describe(AutoLength('d'))
     d = Data(length)
 """,
-        root="P", sub=(),
-        described=[Described("length", "d", 1, len)],
-        tracked={"d": "bytes"},
-        encode=lambda r, t: bytes([r["length"]]) + t["d"],
-        raw=lambda t, ch: bytes([len(t["d"])]) + t["d"],
-    ),
-    dict(
-        name="abits",
-        src="""
+         described=[D("length", "int", 1, lambda t, r: len(t["d"]))], tracked={"d": "bytes"},
+         encode=lambda hs: _i(hs[0][0]["length"]) + hs[0][1]["d"],
+         raw=lambda ts, ch: _i(len(ts[0]["d"])) + ts[0]["d"]),
+    dict(name="abits", root="P", nhosts=1, hosts=_host_self,
+         src="""
 class P(Packet):
     __bisturi__ = OPTIONS
     nbits = Int(2).describe(Auto(lambda pkt: len(pkt.d) * 8))
     d = Data(nbits // 8)
 """,
-        root="P", sub=(),
-        described=[Described("nbits", "d", 2, lambda v: len(v) * 8)],
-        tracked={"d": "bytes"},
-        encode=lambda r, t: r["nbits"].to_bytes(2, "big") + t["d"],
-        raw=lambda t, ch: (len(t["d"]) * 8).to_bytes(2, "big") + t["d"],
-    ),
-    dict(
-        name="two",
-        src="""
+         described=[D("nbits", "int", 2, lambda t, r: len(t["d"]) * 8)], tracked={"d": "bytes"},
+         encode=lambda hs: _i(hs[0][0]["nbits"], 2) + hs[0][1]["d"],
+         raw=lambda ts, ch: _i(len(ts[0]["d"]) * 8, 2) + ts[0]["d"]),
+    dict(name="two", root="P", nhosts=1, hosts=_host_self,
+         src="""
 class P(Packet):
     __bisturi__ = OPTIONS
     n = Int(1).describe(AutoLength('items'))
@@ -66,31 +71,24 @@ class P(Packet):
     length = Int(1).describe(AutoLength('d'))
     d = Data(length)
 """,
-        root="P", sub=(),
-        described=[Described("n", "items", 1, len), Described("length", "d", 1, len)],
-        tracked={"items": "ints", "d": "bytes"},
-        encode=lambda r, t: bytes([r["n"]]) + bytes(t["items"]) + bytes([r["length"]]) + t["d"],
-        raw=lambda t, ch: bytes([len(t["items"])]) + bytes(t["items"]) + bytes([len(t["d"])]) + t["d"],
-    ),
-    dict(
-        name="after",
-        src="""
+         described=[D("n", "int", 1, lambda t, r: len(t["items"])), D("length", "int", 1, lambda t, r: len(t["d"]))],
+         tracked={"items": "ints", "d": "bytes"},
+         encode=lambda hs: _i(hs[0][0]["n"]) + bytes(hs[0][1]["items"]) + _i(hs[0][0]["length"]) + hs[0][1]["d"],
+         raw=lambda ts, ch: _i(len(ts[0]["items"])) + bytes(ts[0]["items"]) + _i(len(ts[0]["d"])) + ts[0]["d"]),
+    dict(name="after", root="P", nhosts=1, hosts=_host_self,
+         src="""
 class P(Packet):
     __bisturi__ = OPTIONS
     d = Data(until_marker=b';')
     length = Int(2).describe(AutoLength('d'))
 """,
-        root="P", sub=(),
-        described=[Described("length", "d", 2, len)],
-        tracked={"d": "bytes-nosemi"},
-        encode=lambda r, t: t["d"] + b";" + r["length"].to_bytes(2, "big"),
-        # the length on the wire may disagree with the canonical one: after unpack the field must
-        # still read as the computed value
-        raw=lambda t, ch: t["d"] + b";" + ((len(t["d"]) + ch.draw("wire-length-skew", 4)) % 65536).to_bytes(2, "big"),
-    ),
-    dict(
-        name="nested",
-        src="""
+         described=[D("length", "int", 2, lambda t, r: len(t["d"]))], tracked={"d": "bytes"},
+         encode=lambda hs: hs[0][1]["d"] + b";" + _i(hs[0][0]["length"], 2),
+         # the length on the wire may disagree with the canonical one: after unpack the field must
+         # still read as the computed value
+         raw=lambda ts, ch: ts[0]["d"] + b";" + _i((len(ts[0]["d"]) + ch.draw("wire-length-skew", 4)) % 65536, 2)),
+    dict(name="nested", root="P", nhosts=1, hosts=lambda p: [p.inner],
+         src="""
 class Inner(Packet):
     __bisturi__ = OPTIONS
     length = Int(1).describe(AutoLength('d'))
@@ -101,27 +99,110 @@ class P(Packet):
     tag = Int(1, default=7)
     inner = Ref(Inner)
 """,
-        root="P", sub=("inner",),
-        described=[Described("length", "d", 1, len)],
-        tracked={"d": "bytes"},
-        encode=lambda r, t: b"\x07" + bytes([r["length"]]) + t["d"],
-        raw=lambda t, ch: b"\x07" + bytes([len(t["d"])]) + t["d"],
-    ),
-    dict(
-        name="aligned",
-        src="""
+         ctor=lambda mod, kws, ch: mod.P(inner=mod.Inner(**kws[0])) if (kws[0] or ch.chance("explicit-inner", 1, 2)) else mod.P(),
+         described=[D("length", "int", 1, lambda t, r: len(t["d"]))], tracked={"d": "bytes"},
+         encode=lambda hs: b"\x07" + _i(hs[0][0]["length"]) + hs[0][1]["d"],
+         raw=lambda ts, ch: b"\x07" + _i(len(ts[0]["d"])) + ts[0]["d"]),
+    dict(name="aligned", root="P", nhosts=1, hosts=_host_self,
+         src="""
 class P(Packet):
     __bisturi__ = OPTIONS
     tag = Int(1, default=7)
     length = Int(1).describe(AutoLength('d')).aligned(2)
     d = Data(length)
 """,
-        root="P", sub=(),
-        described=[Described("length", "d", 1, len)],
-        tracked={"d": "bytes"},
-        encode=lambda r, t: b"\x07." + bytes([r["length"]]) + t["d"],
-        raw=lambda t, ch: b"\x07." + bytes([len(t["d"])]) + t["d"],
-    ),
+         described=[D("length", "int", 1, lambda t, r: len(t["d"]))], tracked={"d": "bytes"},
+         encode=lambda hs: b"\x07." + _i(hs[0][0]["length"]) + hs[0][1]["d"],
+         raw=lambda ts, ch: b"\x07." + _i(len(ts[0]["d"])) + ts[0]["d"]),
+    # an Auto whose function reads another described field (the order of the pre-pack syncs matters)
+    dict(name="chain", root="P", nhosts=1, hosts=_host_self,
+         src="""
+class P(Packet):
+    __bisturi__ = OPTIONS
+    total = Int(1).describe(Auto(lambda p: p.length + 1))
+    length = Int(1).describe(AutoLength('d'))
+    d = Data(length)
+""",
+         described=[D("length", "int", 1, lambda t, r: len(t["d"])),
+                    D("total", "int", 1, lambda t, r: (r["length"] + 1) if isinstance(r["length"], int) else None)],
+         tracked={"d": "bytes"},
+         encode=lambda hs: _i(hs[0][0]["total"]) + _i(hs[0][0]["length"]) + hs[0][1]["d"],
+         raw=lambda ts, ch: _i((len(ts[0]["d"]) + 1 + ch.draw("wire-total-skew", 3)) % 256) + _i(len(ts[0]["d"])) + ts[0]["d"]),
+    # a described Data field next to a described Int
+    dict(name="databytes", root="P", nhosts=1, hosts=_host_self,
+         src="""
+class P(Packet):
+    __bisturi__ = OPTIONS
+    tag = Data(2).describe(Auto(lambda p: bytes([len(p.d) % 256, 0xAA])))
+    n = Int(1).describe(AutoLength('d'))
+    d = Data(n)
+""",
+         described=[D("tag", "bytes", 2, lambda t, r: bytes([len(t["d"]) % 256, 0xAA])), D("n", "int", 1, lambda t, r: len(t["d"]))],
+         tracked={"d": "bytes"},
+         encode=lambda hs: hs[0][0]["tag"] + _i(hs[0][0]["n"]) + hs[0][1]["d"],
+         raw=lambda ts, ch: [bytes([len(ts[0]["d"]) % 256, 0xAA]), b"zz"][ch.draw("wire-tag-skew", 2)] + _i(len(ts[0]["d"])) + ts[0]["d"]),
+    # AutoLength of a list of packets
+    dict(name="pktlist", root="P", nhosts=1, hosts=_host_self,
+         src="""
+class Sub(Packet):
+    __bisturi__ = OPTIONS
+    v = Int(1)
+
+class P(Packet):
+    __bisturi__ = OPTIONS
+    n = Int(1).describe(AutoLength('subs'))
+    subs = Ref(Sub).repeated(n)
+""",
+         described=[D("n", "int", 1, lambda t, r: len(t["subs"]))], tracked={"subs": "pkts:Sub"},
+         encode=lambda hs: _i(hs[0][0]["n"]) + bytes(s.v for s in hs[0][1]["subs"]),
+         raw=lambda ts, ch: _i(len(ts[0]["subs"])) + bytes(ts[0]["subs"])),
+    # described fields in the element packets of a repeated Ref: two hosts per packet
+    dict(name="elements", root="P", nhosts=2, hosts=lambda p: list(p.els),
+         src="""
+class El(Packet):
+    __bisturi__ = OPTIONS
+    length = Int(1).describe(AutoLength('d'))
+    d = Data(length)
+
+class P(Packet):
+    __bisturi__ = OPTIONS
+    k = Int(1, default=2)
+    els = Ref(El).repeated(k)
+""",
+         ctor=lambda mod, kws, ch: mod.P(k=len(kws), els=[mod.El(**kw) for kw in kws]),
+         described=[D("length", "int", 1, lambda t, r: len(t["d"]))], tracked={"d": "bytes"},
+         encode=lambda hs: _i(len(hs)) + b"".join(_i(r["length"]) + t["d"] for r, t in hs),
+         raw=lambda ts, ch: _i(len(ts)) + b"".join(_i(len(t["d"])) + t["d"] for t in ts)),
+    # the prototype of a Ref carries an explicit value: every default-built packet starts with it
+    dict(name="proto", root="P", nhosts=1, hosts=lambda p: [p.inner],
+         src="""
+class Inner(Packet):
+    __bisturi__ = OPTIONS
+    length = Int(1).describe(AutoLength('d'))
+    d = Data(length)
+
+class P(Packet):
+    __bisturi__ = OPTIONS
+    tag = Int(1, default=7)
+    inner = Ref(Inner(length=7, d=b'ab'))
+""",
+         ctor=lambda mod, kws, ch: mod.P(inner=mod.Inner(**kws[0])) if kws[0] else mod.P(),
+         default_explicit={"length": 7},
+         described=[D("length", "int", 1, lambda t, r: len(t["d"]))], tracked={"d": "bytes"},
+         encode=lambda hs: b"\x07" + _i(hs[0][0]["length"]) + hs[0][1]["d"],
+         raw=lambda ts, ch: b"\x07" + _i(len(ts[0]["d"])) + ts[0]["d"]),
+    # a described bit field
+    dict(name="bitsdesc", root="P", nhosts=1, hosts=_host_self,
+         src="""
+class P(Packet):
+    __bisturi__ = OPTIONS
+    x = Bits(4).describe(Auto(lambda p: len(p.d) & 15))
+    y = Bits(4, default=5)
+    d = Data(until_marker=b';')
+""",
+         described=[D("x", "bits", 4, lambda t, r: len(t["d"]) & 15)], tracked={"d": "bytes"},
+         encode=lambda hs: _i((hs[0][0]["x"] << 4) | 5) + hs[0][1]["d"] + b";",
+         raw=lambda ts, ch: _i((((len(ts[0]["d"]) + ch.draw("wire-x-skew", 2)) & 15) << 4) | 5) + ts[0]["d"] + b";"),
 ]
 
 OPTION_SETS = [
@@ -133,9 +214,12 @@ OPTION_SETS = [
     {"annotate": False},
 ]
 
+# per-run bounds (swarm style): (max operations, max live packets)
+PROFILES = [(14, 3), (14, 3), (14, 3), (45, 6)]
+
 
 def _gen_tracked(kind, ch, uniq):
-    if kind in ("bytes", "bytes-nosemi"):
+    if kind == "bytes":
         n = [0, 1, 2, 3, 5, 300][ch.weighted("tracked-len", [3, 4, 4, 3, 2, 1])]
         uniq[0] += 1
         return bytes(((uniq[0] * 7 + i) % 26) + 97 for i in range(n))
@@ -144,34 +228,44 @@ def _gen_tracked(kind, ch, uniq):
     return [(uniq[0] * 5 + i) % 256 for i in range(n)]
 
 
-def _gen_explicit(width, ch):
-    k = ch.weighted("explicit-value", [6, 3, 2, 2, 1])
+def _gen_explicit(d, ch):
+    if d.kind == "bytes":
+        # always of the declared length: a fixed-size Data given a value of another length is padded or cut by
+        # struct's "2s" in generated code and emitted as it is by the generic code (C03/C06 territory, not C17's)
+        k = ch.weighted("explicit-bytes", [4, 2, 1])
+        return [b"xy", b"\x00\x00", b"\xff\xfe"][k] if k != 0 else bytes([65 + ch.draw("explicit-b", 20), 66])
+    if d.kind == "bits":
+        return ch.draw("explicit-bits", 1 << d.width)
+    k = ch.weighted("explicit-value", [6, 3, 2, 2, 2])
     if k == 0:
         return ch.draw("explicit-small", 9)
     if k == 1:
-        return 256 ** width - 1 - ch.draw("explicit-high", 2)
+        return 256 ** d.width - 1 - ch.draw("explicit-high", 2)
     if k == 2:
-        return 256 ** width + ch.draw("explicit-over", 3)      # does not fit: pack fails after the sync ran
+        return 256 ** d.width + ch.draw("explicit-over", 3)      # does not fit: pack fails after the sync ran
     if k == 3:
-        return -1 - ch.draw("explicit-neg", 2)                   # does not fit
-    return 0
+        return -1 - ch.draw("explicit-neg", 2)                       # does not fit
+    return 0                                                         # falsy explicit value
 
 
 @register
 class AutoEngine(Engine):
     prop = "C17"
     name = "histsim-auto"
-    tiers = {"quick": 6000, "thorough": 1500000}
+    tiers = {"quick": 8000, "thorough": 1500000}
     chunks = {"quick": 40, "thorough": 1000}
-    rule = ("each case is a Chooser-generated history of 3..14 operations (NEW with/without the described keyword, "
-            "SET_TRACKED, SET_DESCRIBED incl. values that do not fit, DEL_DESCRIBED, READ, PACK, UNPACK, REPARSE) on 1..3 "
-            "live packets of one of six freshly defined declarations under a drawn code-generation option set; "
-            "distinct = digest of (declaration, options, abstract operation list); non-trivial = the history contains "
-            "an explicit set or a delete and at least one pack")
+    rule = ("each case is a Chooser-generated history of 3..14 (one run in four: up to 45) operations (NEW with/without the described "
+            "keyword, SET_TRACKED, SET_DESCRIBED incl. values that do not fit and falsy ones, DEL_DESCRIBED, READ, PACK, UNPACK, REPARSE) "
+            "on 1..3 (or up to 6) live packets of one of twelve freshly defined declarations (AutoLength / Auto on Int, Data and Bits; two "
+            "described fields; a described field after its tracked field, in a nested packet, in element packets of a repeated Ref, "
+            "aligned, chained Autos, tracking a list of packets, explicit value inherited from a Ref prototype) under a drawn "
+            "code-generation option set; distinct = digest of (declaration, options, abstract operation list); non-trivial = the "
+            "history contains an explicit set or a delete and at least one pack")
     assumptions = ["reference model: a described field reads its explicit value if one is set and not deleted, else the "
-                   "value computed from the tracked field as it is now; pack serialises what reads, or raises PacketError "
+                   "value computed from the tracked field(s) as they are now; pack serialises what reads, or raises PacketError "
                    "iff a read does not fit the field",
-                   "tracked values are read back from the object after NEW/UNPACK (their correctness is C01/C02/C19, not C17)",
+                   "tracked values are read back from the object after every operation (their correctness is C01/C02/C19, not C17)",
+                   "described Bits get in-range explicit values only (out-of-range bit values are reduced modulo 2^width by design)",
                    "no schedule, clock or I/O is involved: reference-model half of the technique only"]
     real_components = ["bisturi.descriptor.Auto/AutoLength", "bisturi.packet_builder (metaclass, slots, sync methods)",
                        "bisturi.codegen (generated pack/unpack incl. descriptor sync lines) loaded through a scratch __pkts__ cache",
@@ -179,7 +273,7 @@ class AutoEngine(Engine):
     stub_components = []
     expected_probes = ["set-delete-set", "delete-never-set", "failing-pack-then-read", "unpack-then-set",
                        "ctor-keyword-then-delete", "generated-path", "generic-path", "two-packets-one-class",
-                       "wire-length-disagrees"]
+                       "wire-value-disagrees", "long-history", "falsy-explicit", "prototype-explicit-inherited"]
 
     def init_worker(self, tree, wdir):
         self.tree = tree
@@ -206,15 +300,13 @@ class AutoEngine(Engine):
         mod = project.exec_module(pdir, "c17_%s" % decl["name"], src)
         Cls = getattr(mod, decl["root"])
         ev("decl=%s options=%r" % (decl["name"], opts))
-
-        def target(p):
-            for a in decl["sub"]:
-                p = getattr(p, a)
-            return p
-
-        nops = 3 + ch.draw("n-ops", 12)
+        described = decl["described"]
+        max_ops, max_live = PROFILES[ch.draw("profile", len(PROFILES))]
+        if max_ops > 14:
+            st["probe:long-history"] += 1
+        nops = 3 + ch.draw("n-ops", max_ops - 2)
         uniq = [0]
-        live = []        # list of [packet, {attr: explicit or None}, flags]
+        live = []        # records: [packet, [explicit dict per host], flags]
         history = []
         saw_set_or_del = saw_pack = False
 
@@ -222,111 +314,147 @@ class AutoEngine(Engine):
             out.violation = {"oracle": oracle, "actor": actor, "detail": detail}
             ev("VIOLATION %s: %s" % (oracle, detail))
 
+        def tracked_of(host):
+            return {name: getattr(host, name) for name in decl["tracked"]}
+
+        def wants(host, explicit):
+            """what every described field of this host must read as, in dependency order"""
+            t = tracked_of(host)
+            r = {}
+            for d in described:
+                r[d.attr] = explicit[d.attr] if explicit[d.attr] is not None else d.compute(t, r)
+            return r, t
+
         def check_all(after):
-            for i, (p, explicit, _) in enumerate(live):
-                t = target(p)
-                if hasattr(p, "__dict__") or hasattr(t, "__dict__"):
+            for i, (p, explicits, _) in enumerate(live):
+                try:
+                    hosts = decl["hosts"](p)
+                except Exception as e:
+                    violation("C17.read", "packet %d lost its structure after %s: %r" % (i, after, e))
+                    return False
+                if hasattr(p, "__dict__") or any(hasattr(h, "__dict__") for h in hosts):
                     violation("C17.no-dict", "packet %d has a __dict__ after %s" % (i, after))
                     return False
-                for d in decl["described"]:
-                    try:
-                        got = getattr(t, d.attr)
-                    except Exception as e:
-                        violation("C17.read", "reading %s of packet %d after %s raised %r" % (d.attr, i, after, e))
-                        return False
-                    want = explicit[d.attr] if explicit[d.attr] is not None else d.compute(getattr(t, d.tracked))
-                    if got != want or type(got) is not type(want):
-                        violation("C17.read", "packet %d: %s reads %r after %s, model says %r (explicit=%r, tracked %s=%r)" % (
-                            i, d.attr, got, after, want, explicit[d.attr], d.tracked, getattr(t, d.tracked)))
-                        return False
+                for hi, h in enumerate(hosts):
+                    if hi >= len(explicits):
+                        break
+                    want, t = wants(h, explicits[hi])
+                    for d in described:
+                        try:
+                            got = getattr(h, d.attr)
+                        except Exception as e:
+                            violation("C17.read", "reading %s of packet %d after %s raised %r" % (d.attr, i, after, e))
+                            return False
+                        if got != want[d.attr] or type(got) is not type(want[d.attr]):
+                            violation("C17.read", "packet %d host %d: %s reads %r after %s, model says %r (explicit=%r, tracked %r)" % (
+                                i, hi, d.attr, got, after, want[d.attr], explicits[hi][d.attr], _short(t)))
+                            return False
             return True
 
-        def new_packet(slot):
-            kw = {}
-            explicit = {d.attr: None for d in decl["described"]}
-            for name, kind in decl["tracked"].items():
-                if ch.chance("give-tracked", 3, 4):
-                    kw[name] = _gen_tracked(kind, ch, uniq)
-            for d in decl["described"]:
-                if ch.chance("give-described-keyword", 1, 3):
-                    explicit[d.attr] = kw[d.attr] = _gen_explicit(d.width, ch)
-            if decl["sub"]:
-                inner_cls = getattr(mod, "Inner")
-                p = Cls(**{decl["sub"][0]: inner_cls(**kw)}) if kw or ch.chance("explicit-inner", 1, 2) else Cls()
-            else:
-                p = Cls(**kw)
-            return p, explicit, {"ctor_kw": any(v is not None for v in explicit.values())}, kw
+        def build_tracked(kind, spec):
+            if kind.startswith("pkts:"):
+                sub = getattr(mod, kind.split(":")[1])
+                return [sub(v=x) for x in spec]
+            return spec
+
+        def new_packet():
+            kws = []
+            explicits = []
+            desc = []
+            inherited = False
+            for hi in range(decl["nhosts"]):
+                kw = {}
+                explicit = {d.attr: None for d in described}
+                for name, kind in sorted(decl["tracked"].items()):
+                    if ch.chance("give-tracked", 3, 4):
+                        spec = _gen_tracked("bytes" if kind == "bytes" else "ints", ch, uniq)
+                        kw[name] = build_tracked(kind, spec)
+                        desc.append((hi, name, len(spec)))
+                for d in described:
+                    if ch.chance("give-described-keyword", 1, 3):
+                        explicit[d.attr] = kw[d.attr] = _gen_explicit(d, ch)
+                        desc.append((hi, d.attr, repr(explicit[d.attr])))
+                kws.append(kw)
+                explicits.append(explicit)
+            ctor = decl.get("ctor")
+            p = ctor(mod, kws, ch) if ctor else Cls(**kws[0])
+            if decl.get("default_explicit") and not kws[0]:
+                # a default-built packet inherits what the prototype of its Ref was given explicitly
+                for k, v in decl["default_explicit"].items():
+                    explicits[0][k] = v
+                inherited = True
+            return p, explicits, {"ctor_kw": any(v is not None for e in explicits for v in e.values())}, tuple(desc), inherited
 
         for step in range(nops):
-            if not live:
-                op = 0
-            else:
-                op = ch.weighted("op", [2, 4, 4, 3, 2, 5, 2, 1])
+            op = 0 if not live else ch.weighted("op", [2, 4, 4, 3, 2, 5, 2, 1])
             # 0 NEW 1 SET_TRACKED 2 SET_DESCRIBED 3 DEL_DESCRIBED 4 READ 5 PACK 6 UNPACK 7 REPARSE
             if op == 0:
-                slot = len(live) if len(live) < 3 else ch.draw("slot", 3)
-                p, explicit, flags, kw = new_packet(slot)
-                rec = [p, explicit, flags]
+                slot = len(live) if len(live) < max_live else ch.draw("slot", max_live)
+                p, explicits, flags, desc, inherited = new_packet()
+                if inherited:
+                    st["probe:prototype-explicit-inherited"] += 1
+                rec = [p, explicits, flags]
                 if slot == len(live):
                     live.append(rec)
                 else:
                     live[slot] = rec
                 if len(live) >= 2:
                     st["probe:two-packets-one-class"] += 1
-                history.append(("NEW", slot, tuple(sorted((k, repr(v)) for k, v in kw.items()))))
-                ev("NEW slot=%d kw=%r" % (slot, kw))
+                history.append(("NEW", slot, desc))
+                ev("NEW slot=%d %r" % (slot, desc))
             else:
                 slot = ch.draw("slot", len(live))
-                p, explicit, flags = live[slot]
-                t = target(p)
+                p, explicits, flags = live[slot]
+                hosts = decl["hosts"](p)
+                hi = ch.draw("host", min(len(hosts), len(explicits)))
+                h, explicit = hosts[hi], explicits[hi]
                 if op == 1:
                     name = ch.pick("which-tracked", sorted(decl["tracked"]))
-                    v = _gen_tracked(decl["tracked"][name], ch, uniq)
-                    setattr(t, name, v)
-                    history.append(("SET_TRACKED", slot, name, len(v)))
-                    ev("SET_TRACKED slot=%d %s=%r" % (slot, name, v))
+                    kind = decl["tracked"][name]
+                    spec = _gen_tracked("bytes" if kind == "bytes" else "ints", ch, uniq)
+                    setattr(h, name, build_tracked(kind, spec))
+                    history.append(("SET_TRACKED", slot, hi, name, len(spec)))
+                    ev("SET_TRACKED slot=%d host=%d %s=%r" % (slot, hi, name, _short(spec)))
                 elif op == 2:
-                    d = ch.pick("which-described", decl["described"])
-                    v = _gen_explicit(d.width, ch)
-                    setattr(t, d.attr, v)
-                    if flags.get("deleted:" + d.attr):
+                    d = ch.pick("which-described", described)
+                    v = _gen_explicit(d, ch)
+                    setattr(h, d.attr, v)
+                    if flags.get("deleted:%d:%s" % (hi, d.attr)):
                         st["probe:set-delete-set"] += 1
                     if flags.get("unpacked"):
                         st["probe:unpack-then-set"] += 1
+                    if not v:
+                        st["probe:falsy-explicit"] += 1
                     explicit[d.attr] = v
-                    flags["set:" + d.attr] = True
+                    flags["set:%d:%s" % (hi, d.attr)] = True
                     saw_set_or_del = True
-                    history.append(("SET_DESCRIBED", slot, d.attr, v))
-                    ev("SET_DESCRIBED slot=%d %s=%r" % (slot, d.attr, v))
+                    history.append(("SET_DESCRIBED", slot, hi, d.attr, repr(v)))
+                    ev("SET_DESCRIBED slot=%d host=%d %s=%r" % (slot, hi, d.attr, v))
                 elif op == 3:
-                    d = ch.pick("which-described", decl["described"])
+                    d = ch.pick("which-described", described)
                     try:
-                        delattr(t, d.attr)
+                        delattr(h, d.attr)
                     except Exception as e:
                         violation("C17.delete", "del %s on packet %d raised %r" % (d.attr, slot, e))
                         break
-                    if explicit[d.attr] is None and not flags.get("set:" + d.attr):
+                    if explicit[d.attr] is None and not flags.get("set:%d:%s" % (hi, d.attr)):
                         st["probe:delete-never-set"] += 1
                     if flags.get("ctor_kw") and explicit[d.attr] is not None:
                         st["probe:ctor-keyword-then-delete"] += 1
-                    if flags.get("set:" + d.attr):
-                        flags["deleted:" + d.attr] = True
+                    if flags.get("set:%d:%s" % (hi, d.attr)):
+                        flags["deleted:%d:%s" % (hi, d.attr)] = True
                     explicit[d.attr] = None
                     saw_set_or_del = True
-                    history.append(("DEL_DESCRIBED", slot, d.attr))
-                    ev("DEL_DESCRIBED slot=%d %s" % (slot, d.attr))
+                    history.append(("DEL_DESCRIBED", slot, hi, d.attr))
+                    ev("DEL_DESCRIBED slot=%d host=%d %s" % (slot, hi, d.attr))
                 elif op == 4:
                     history.append(("READ", slot))
                     if flags.get("pack_failed"):
                         st["probe:failing-pack-then-read"] += 1
-                    ev("READ slot=%d -> %r" % (slot, [getattr(t, d.attr) for d in decl["described"]]))
+                    ev("READ slot=%d -> %r" % (slot, [[getattr(x, d.attr) for d in described] for x in hosts]))
                 elif op in (5, 7):
-                    reads = {}
-                    fits = True
-                    for d in decl["described"]:
-                        reads[d.attr] = explicit[d.attr] if explicit[d.attr] is not None else d.compute(getattr(t, d.tracked))
-                        fits = fits and _fits(reads[d.attr], d.width)
-                    tracked = {name: getattr(t, name) for name in decl["tracked"]}
+                    hv = [wants(x, explicits[k]) for k, x in enumerate(hosts) if k < len(explicits)]
+                    fits = all(d.fits(r[d.attr]) for r, _ in hv for d in described)
                     saw_pack = True
                     try:
                         raw = p.pack()
@@ -337,22 +465,22 @@ class AutoEngine(Engine):
                         violation("C17.pack-outcome", "pack of packet %d raised %r instead of PacketError" % (slot, e))
                         break
                     history.append(("PACK" if op == 5 else "REPARSE", slot, fits))
-                    ev("%s slot=%d -> %r" % ("PACK" if op == 5 else "REPARSE", slot, raw if err is None else "PacketError"))
+                    ev("%s slot=%d -> %r" % ("PACK" if op == 5 else "REPARSE", slot, _short(raw) if err is None else "PacketError"))
                     if err is not None:
                         st["fault:pack-failed-after-sync"] += 1
                         flags["pack_failed"] = True
                         if fits:
                             violation("C17.pack-outcome", "pack of packet %d failed (%s) although every described field fits: reads=%r" % (
-                                slot, str(err.original_error_message)[:80], reads))
+                                slot, str(err.original_error_message)[:80], [r for r, _ in hv]))
                             break
                     else:
                         if not fits:
-                            violation("C17.pack-outcome", "pack of packet %d returned %r although reads=%r do not fit" % (slot, raw, reads))
+                            violation("C17.pack-outcome", "pack of packet %d returned %r although reads=%r do not fit" % (slot, _short(raw), [r for r, _ in hv]))
                             break
-                        want = decl["encode"](reads, tracked)
+                        want = decl["encode"](hv)
                         if raw != want:
                             violation("C17.pack-bytes", "pack of packet %d returned %r, but the attributes read %r (tracked %r) i.e. %r" % (
-                                slot, raw, reads, tracked, want))
+                                slot, _short(raw), [r for r, _ in hv], _short([t for _, t in hv]), _short(want)))
                             break
                         if op == 7:
                             # an explicit value that disagrees with the tracked field makes the bytes
@@ -363,21 +491,19 @@ class AutoEngine(Engine):
                                 q = None
                                 ev("  reparse failed: %s" % str(e.original_error_message)[:60])
                             if q is not None:
-                                nslot = len(live) if len(live) < 3 else ch.draw("slot", 3)
-                                rec = [q, {d.attr: None for d in decl["described"]}, {"unpacked": True}]
-                                if nslot == len(live):
-                                    live.append(rec)
-                                else:
-                                    live[nslot] = rec
-                                if len(live) >= 2:
-                                    st["probe:two-packets-one-class"] += 1
+                                self._install(live, q, decl, described, max_live, ch, st)
                 elif op == 6:
-                    tv = {name: _gen_tracked(kind, ch, uniq) for name, kind in sorted(decl["tracked"].items())}
-                    tv = {k: (v[:200] if isinstance(v, bytes) else v) for k, v in tv.items()}
-                    raw = decl["raw"](tv, ch)
-                    canon = decl["encode"]({d.attr: d.compute(tv[d.tracked]) for d in decl["described"]}, tv)
+                    ts = []
+                    for k in range(decl["nhosts"]):
+                        t = {}
+                        for name, kind in sorted(decl["tracked"].items()):
+                            v = _gen_tracked("bytes" if kind == "bytes" else "ints", ch, uniq)
+                            t[name] = v[:200] if isinstance(v, bytes) else v
+                        ts.append(t)
+                    raw = decl["raw"](ts, ch)
+                    canon = decl["raw"](ts, _Zero())
                     if raw != canon:
-                        st["probe:wire-length-disagrees"] += 1
+                        st["probe:wire-value-disagrees"] += 1
                     k = ch.weighted("raw-damage", [6, 1, 1])
                     if k == 1:
                         raw = raw + b"zz"
@@ -389,19 +515,48 @@ class AutoEngine(Engine):
                     except PacketError:
                         q = None
                     history.append(("UNPACK", slot, len(raw), k))
-                    ev("UNPACK slot=%d raw=%r -> %s" % (slot, raw, "PacketError" if q is None else "ok"))
+                    ev("UNPACK slot=%d raw=%r -> %s" % (slot, _short(raw), "PacketError" if q is None else "ok"))
                     if q is not None:
-                        live[slot] = [q, {d.attr: None for d in decl["described"]}, {"unpacked": True}]
+                        try:
+                            nh = len(decl["hosts"](q))
+                        except Exception:
+                            nh = 0
+                        live[slot] = [q, [{d.attr: None for d in described} for _ in range(nh)], {"unpacked": True}]
             if out.violation is not None:
                 break
             if not check_all(history[-1][0] + repr(history[-1][1:])):
                 break
-            out.state_sigs += tuple(digest((decl["name"], tuple((k, v is not None) for k, v in sorted(e.items())),
-                                            tuple(min(len(getattr(target(p), n)), 9) for n in sorted(decl["tracked"]))))
-                                    for (p, e, _) in live)
+            out.state_sigs += tuple(digest((decl["name"], tuple(tuple((k, v is not None) for k, v in sorted(e.items())) for e in es)))
+                                    for (p, es, _) in live)
 
         out.case_sig = digest((decl["name"], oi, tuple(history)))
         out.nontrivial = saw_set_or_del and saw_pack
-        out.sample = {"decl": decl["name"], "options": opts, "ops": [list(map(str, h)) for h in history]}
+        out.sample = {"decl": decl["name"], "options": opts, "ops": [list(map(str, h)) for h in history][:20]}
         out.steps = len(history)
         return out
+
+    def _install(self, live, q, decl, described, max_live, ch, st):
+        try:
+            nh = len(decl["hosts"](q))
+        except Exception:
+            nh = 0
+        nslot = len(live) if len(live) < max_live else ch.draw("slot", max_live)
+        rec = [q, [{d.attr: None for d in described} for _ in range(nh)], {"unpacked": True}]
+        if nslot == len(live):
+            live.append(rec)
+        else:
+            live[nslot] = rec
+        if len(live) >= 2:
+            st["probe:two-packets-one-class"] += 1
+
+
+class _Zero:
+    """a chooser that always answers 0: gives the canonical wire encoding"""
+
+    def draw(self, label, n, stream="main"):
+        return 0
+
+
+def _short(v):
+    s = repr(v)
+    return s if len(s) <= 160 else s[:150] + "...(%d chars)" % len(s)
